@@ -37,6 +37,7 @@ BoundOf(p) == CASE p = "inf"    -> <<-Inf, Inf>>
                 [] p = "lonear" -> <<-1, 64>>
                 [] p = "box1"   -> <<-6, 8>>
                 [] p = "half"   -> <<-4, Inf>>
+                [] p = "up02"   -> <<-40, 2>>
 BPats == {"inf", "wide", "lo0", "up0", "both0", "narrow", "lonear"}
 GVals == {-2, 0, 1}
 
@@ -49,8 +50,9 @@ HessOf(kind, n) ==   \* integer symmetric matrices
        [] kind = "sing"  -> IF a = b /\ a = 1 THEN 2 ELSE 0
        [] kind = "dense" -> IF a = b THEN 3 ELSE 1
        [] kind = "dind"  -> IF a = b THEN 1 ELSE 2
-       [] kind = "dmix"  -> IF a = b THEN (IF a = 1 THEN 0 ELSE IF a = n THEN -2 ELSE 1) ELSE 1 ]]
-HKinds == {"zero", "pd", "nd", "indef", "sing", "dense", "dind", "dmix"}
+       [] kind = "dmix"  -> IF a = b THEN (IF a = 1 THEN 0 ELSE IF a = n THEN -2 ELSE 1) ELSE 1
+       [] kind = "nd1"   -> IF a = b THEN -1 ELSE 0 ]]
+HKinds == {"zero", "pd", "nd", "indef", "sing", "dense", "dind", "dmix", "nd1"}
 
 \* radius in units of 1/8: inside the narrowest box, comparable, containing every finite box
 Deltas == {1, 16, 1024}          \* (some universes add 8 and 32)
@@ -118,6 +120,41 @@ InstN(n, bp, delta, sc, tcg, aub, bub2, aeq, beq2) ==
      EXCEPT !.rows = "explicit", !.eqs = "explicit"] @@
   [xaub |-> aub, xbub2 |-> bub2, xaeq |-> aeq, xbeq2 |-> beq2]
 
+\* ---- randomly drawn integer instances (TLC's RandomElement, reproducible with -seed): the
+\* degeneracy classes above are exhaustive but coarse; these fill the space between them.
+\* Data in quarters: g4, H4 (symmetric), bounds bd4, radius delta4, constant c4.
+InstX(n, g4, H4, bd4, delta4, c4, tcg) ==
+  [n |-> n, g |-> g4, bp |-> [i \in 1..n |-> "explicit"], bd |-> bd4, hk |-> "explicit", H |-> H4,
+   delta |-> delta4, sc |-> 0, tcg |-> tcg, rows |-> "none", eqs |-> "none", unit |-> 4, c4 |-> c4,
+   improvable |-> Improvable(g4, bd4), descent |-> Descent(g4, bd4), boxinside |-> FALSE,
+   cauchy |-> <<-1, 1>>]
+\* a deterministic scrambler instead of RandomElement: TLC re-evaluates a LET-bound random value
+\* at every reference, which would e.g. make a "symmetric" matrix asymmetric
+Rnd(i, k, m) == ((((i * 7919 + k * 10473 + 12345) % 10007) * (((i + 31 * k) % 97) + 1)) % 10007) % m
+Pick(seq, i, k) == seq[Rnd(i, k, Len(seq)) + 1]
+RSym(i, n, seq, k0) == [a \in 1..n |-> [b \in 1..n |->
+                          Pick(seq, i, k0 + (IF a <= b THEN 10 * a + b ELSE 10 * b + a))]]
+Lows4  == <<-Inf, -80, -20, -8, -2, -1, 0>>
+Highs4 == <<0, 1, 2, 3, 8, 20, 80, Inf>>
+RandT(i) == LET n == Pick(<<2, 3, 3, 4>>, i, 1)
+            IN InstX(n, [j \in 1..n |-> Pick(<<-4, -3, -2, -1, 0, 1, 2, 3, 4>>, i, 10 + j)],
+                     RSym(i, n, <<-6, -4, -3, -2, -1, 0, 0, 1, 2, 3, 4, 6>>, 100),
+                     [j \in 1..n |-> <<Pick(Lows4, i, 20 + j), Pick(Highs4, i, 30 + j)>>],
+                     Pick(<<2, 4, 6, 8, 11, 14, 16, 24>>, i, 2), 0, TRUE)
+RandG(i) == LET n == Pick(<<1, 1, 2>>, i, 1)
+            IN InstX(n, [j \in 1..n |-> Pick(<<-8, -2, -1, 0, 1, 2, 8>>, i, 10 + j)],
+                     RSym(i, n, <<-8, -4, -1, 0, 1, 4>>, 100),
+                     [j \in 1..n |-> <<Pick(<<-Inf, -40, -6>>, i, 20 + j), Pick(<<6, 40, Inf>>, i, 30 + j)>>],
+                     Pick(<<1, 2, 3, 5, 6, 7, 9, 12>>, i, 2), Pick(<<-8, -4, -1, 1, 4, 8>>, i, 3), TRUE)
+RandN(i) == LET n == 2
+                m == Pick(<<1, 2, 2>>, i, 1)
+                R7 == <<-7, -5, -4, -3, -2, -1, 0, 1, 2, 3, 4, 5, 7>>
+            IN InstN(n, [j \in 1..n |-> Pick(<<"inf", "inf", "wide">>, i, 10 + j)], Pick(<<4, 8, 16, 64>>, i, 2), 0,
+                     Pick(<<TRUE, FALSE>>, i, 3),
+                     [r \in 1..m |-> [j \in 1..n |-> Pick(R7, i, 40 + 10 * r + j)]],
+                     [r \in 1..m |-> Pick(<<-9, -5, -3, -1, 1, 4>>, i, 70 + r)],
+                     << [j \in 1..n |-> Pick(R7, i, 80 + j)] >>, << Pick(<<-5, -2, 1, 3>>, i, 90) >>)
+
 Vecs(n, S) == [1..n -> S]
 RowKinds == {"none", "inactive", "active", "dup", "parallel", "rankdef", "violated", "poly", "wedge"}
 EqKinds  == {"none", "one", "dup"}
@@ -152,6 +189,9 @@ UniverseP(id) ==
     [] id = "lin2p" -> {Inst(2, g, bp, hk, d, sc, TRUE, rows, "none") :
                         g \in Vecs(2, {-2, -1, 1}), bp \in Vecs(2, {"box1", "half", "wide", "inf", "lonear"}),
                         hk \in HKinds, d \in {8, 16}, sc \in {0, 20}, rows \in {"poly", "wedge"}}
+    [] id = "rndt" -> {RandT(i) : i \in 1..24000}
+    [] id = "rndg" -> {RandG(i) : i \in 1..6000}
+    [] id = "rndn" -> {RandN(i) : i \in 1..40000}
     [] id = "nrm2" -> {InstN(2, bp, d, 0, tcg, <<r1, r2>>, <<b1, b2>>, <<e>>, <<be>>) :
                         bp \in {<<"inf", "inf">>, <<"wide", "wide">>, <<"lo0", "inf">>},
                         d \in {8, 1024}, tcg \in BOOLEAN,
@@ -159,8 +199,11 @@ UniverseP(id) ==
                         b1 \in {-1, -5, 2}, b2 \in {-5, -2, 3},
                         e \in {<<-5, 1>>, <<1, 1>>, <<2, -3>>}, be \in {-2, 1, 4}}
     [] id = "bd3r" -> {Inst(3, g, bp, hk, d, 0, TRUE, "none", "none") :
-                        g \in Vecs(3, {-2, -1, 1}), bp \in Vecs(3, {"box1", "half", "lonear", "wide", "narrow"}),
-                        hk \in {"dind", "dmix", "indef", "dense", "nd"}, d \in {16, 32}}
+                        g \in Vecs(3, {-2, -1, 1}), bp \in Vecs(3, {"box1", "half", "lonear", "wide", "narrow", "lo0", "up02"}),
+                        hk \in {"dind", "dmix", "indef", "dense", "nd"}, d \in {16, 28, 32}}
+    [] id = "geo" -> UNION {{Inst(n, g, bp, hk, d, 0, TRUE, "none", "none") :
+                        g \in Vecs(n, {-2, -1, 0, 1}), bp \in Vecs(n, {"inf", "wide", "box1"}),
+                        hk \in {"nd1", "nd", "indef", "pd", "zero", "dmix"}, d \in {8, 12, 16, 24, 32, 40}} : n \in {1, 2}}
     [] OTHER -> Universe(id)
 
 Emit == IF "UNIVERSE_OUT" \in DOMAIN IOEnv
